@@ -33,6 +33,7 @@ import (
 	"go/ast"
 	"go/importer"
 	"go/parser"
+	"go/printer"
 	"go/token"
 	"go/types"
 	"io"
@@ -259,6 +260,7 @@ func scan(af *ast.File, fname string, info *types.Info, counts map[site]int, det
 				if tv, ok := info.Types[x.X]; ok && tv.Type != nil {
 					if _, isMap := tv.Type.Underlying().(*types.Map); isMap {
 						add(fn, "maprange")
+						addDetail(fn, "maprange", "shape="+loopShape(x, root, info))
 						mapRanges[n] = true
 						inMapRange++
 					}
@@ -279,15 +281,34 @@ func scan(af *ast.File, fname string, info *types.Info, counts map[site]int, det
 					add(fn, "float")
 				}
 			case *ast.BinaryExpr:
+				isF := false
 				if tv, ok := info.Types[x.X]; ok && isFloat(tv.Type) {
-					add(fn, "float")
+					isF = true
 				} else if tv, ok := info.Types[x.Y]; ok && isFloat(tv.Type) {
+					isF = true
+				}
+				if isF {
 					add(fn, "float")
+					_, lx := x.X.(*ast.BasicLit)
+					_, ly := x.Y.(*ast.BasicLit)
+					switch x.Op {
+					case token.LSS, token.LEQ, token.GTR, token.GEQ, token.EQL, token.NEQ:
+						if (lx || ly) && inMapRange == 0 {
+							addDetail(fn, "float", "compare-const")
+						}
+					}
 				}
 			case *ast.CallExpr:
 				// conversion to a float type
 				if tv, ok := info.Types[x.Fun]; ok && tv.IsType() && isFloat(tv.Type) {
 					add(fn, "float")
+					if len(stack) >= 2 {
+						if pc, ok := stack[len(stack)-2].(*ast.CallExpr); ok {
+							if ps, ok := pc.Fun.(*ast.SelectorExpr); ok && strings.HasSuffix(pkgOf(ps.X), "/telemetry") {
+								addDetail(fn, "float", "telemetry-arg")
+							}
+						}
+					}
 				}
 				if sel, ok := x.Fun.(*ast.SelectorExpr); ok {
 					switch p := pkgOf(sel.X); {
@@ -690,4 +711,150 @@ func addressPrinted(t types.Type) bool {
 		return true
 	}
 	return false
+}
+
+// loopShape classifies the body of a range over a map by what it writes OUTSIDE itself:
+//
+//	collect-then-sort        only `X = append(X, e)` for one slice X, and X is sorted later in the same function
+//	write-keyed-by-element   only `M[i] = e` into one other map M
+//	accumulate-exact         only `A = A.Add(e)` / `M[k] = M[k].Add(e)` / `A += e` on non-float accumulators
+//	accumulate-float         the same with a float accumulator
+//	other                    anything else: another assignment shape, a call statement (e.g. emitting an event, a store
+//	                         write), return / break / goto / defer / go / send inside the loop
+//
+// Calls inside expressions (right-hand sides, conditions) are taken to be effect-free; call STATEMENTS are not.
+func loopShape(rs *ast.RangeStmt, fnBody ast.Node, info *types.Info) string {
+	inLoop := func(obj types.Object) bool {
+		return obj != nil && obj.Pos() >= rs.Pos() && obj.Pos() <= rs.End()
+	}
+	rootObj := func(e ast.Expr) types.Object {
+		for {
+			switch x := e.(type) {
+			case *ast.IndexExpr:
+				e = x.X
+				continue
+			case *ast.SelectorExpr:
+				e = x.X
+				continue
+			case *ast.StarExpr:
+				e = x.X
+				continue
+			case *ast.ParenExpr:
+				e = x.X
+				continue
+			case *ast.Ident:
+				if o := info.Uses[x]; o != nil {
+					return o
+				}
+				return info.Defs[x]
+			}
+			return nil
+		}
+	}
+	other := false
+	var appends, keyed, accs []string
+	floatAcc := false
+	ast.Inspect(rs.Body, func(n ast.Node) bool {
+		switch x := n.(type) {
+		case *ast.FuncLit:
+			other = true
+			return false
+		case *ast.ExprStmt, *ast.ReturnStmt, *ast.DeferStmt, *ast.GoStmt, *ast.SendStmt:
+			other = true
+		case *ast.BranchStmt:
+			if x.Tok != token.CONTINUE {
+				other = true
+			}
+		case *ast.IncDecStmt:
+			if !inLoop(rootObj(x.X)) {
+				other = true
+			}
+		case *ast.AssignStmt:
+			if x.Tok == token.DEFINE {
+				return true
+			}
+			for i, l := range x.Lhs {
+				if id, ok := l.(*ast.Ident); ok && id.Name == "_" {
+					continue
+				}
+				if inLoop(rootObj(l)) {
+					continue
+				}
+				ls := nodeSrc(l)
+				var r ast.Expr
+				if len(x.Rhs) == len(x.Lhs) {
+					r = x.Rhs[i]
+				}
+				tv := info.Types[l]
+				switch {
+				case x.Tok == token.ADD_ASSIGN:
+					accs = append(accs, ls)
+					if isFloat(tv.Type) {
+						floatAcc = true
+					}
+				case x.Tok == token.ASSIGN && r != nil:
+					rs := nodeSrc(r)
+					_, isIdx := l.(*ast.IndexExpr)
+					switch {
+					case strings.HasPrefix(rs, "append("+ls+", "):
+						appends = append(appends, ls)
+					case strings.HasPrefix(rs, ls+".Add("):
+						accs = append(accs, ls)
+					case isIdx:
+						if ie := l.(*ast.IndexExpr); true {
+							keyed = append(keyed, nodeSrc(ie.X))
+						}
+					default:
+						other = true
+					}
+				default:
+					other = true
+				}
+			}
+		}
+		return true
+	})
+	same := func(l []string) bool {
+		for _, x := range l {
+			if x != l[0] {
+				return false
+			}
+		}
+		return len(l) > 0
+	}
+	switch {
+	case other:
+		return "other"
+	case len(appends) > 0 && len(keyed) == 0 && len(accs) == 0 && same(appends):
+		sorted := false
+		ast.Inspect(fnBody, func(n ast.Node) bool {
+			if c, ok := n.(*ast.CallExpr); ok && c.Pos() > rs.End() && len(c.Args) > 0 {
+				f := nodeSrc(c.Fun)
+				if (f == "sort.Slice" || f == "sort.SliceStable" || f == "sort.Strings" || f == "sort.Sort") && nodeSrc(c.Args[0]) == appends[0] {
+					sorted = true
+				}
+			}
+			return true
+		})
+		if sorted {
+			return "collect-then-sort"
+		}
+		return "other"
+	case len(keyed) > 0 && len(appends) == 0 && len(accs) == 0 && same(keyed):
+		return "write-keyed-by-element"
+	case len(accs) > 0 && len(appends) == 0 && len(keyed) == 0:
+		if floatAcc {
+			return "accumulate-float"
+		}
+		return "accumulate-exact"
+	case len(accs) == 0 && len(appends) == 0 && len(keyed) == 0:
+		return "no-outer-write"
+	}
+	return "other"
+}
+
+func nodeSrc(n ast.Node) string {
+	var b strings.Builder
+	_ = printer.Fprint(&b, token.NewFileSet(), n)
+	return b.String()
 }
